@@ -110,11 +110,41 @@ Ltac mathml_facts :=
              end
          end.
 
+Lemma node_apply : forall pk idx kids sub, 1 <= length (mkids kids) -> val_node pk idx "apply" [] kids sub = sub.
+Proof.
+  intros. unfold val_node. change (vclass_of "apply") with VApply. cbn beta iota.
+  apply Nat.leb_le in H. now rewrite H.
+Qed.
+Lemma node_piecewise : forall pk idx kids sub, val_node pk idx "piecewise" [] kids sub = sub.
+Proof. reflexivity. Qed.
+Lemma node_piece : forall pk idx kids sub, length (mkids kids) = 2 -> val_node pk idx "piece" [] kids sub = sub.
+Proof. intros. unfold val_node. change (vclass_of "piece") with VPiece. cbn beta iota. now rewrite H. Qed.
+Lemma node_otherwise : forall pk idx kids sub, length (mkids kids) = 1 -> val_node pk idx "otherwise" [] kids sub = sub.
+Proof. intros. unfold val_node. change (vclass_of "otherwise") with VOtherwise. cbn beta iota. now rewrite H. Qed.
+Lemma node_degree : forall a d kids sub, length (mkids kids) = 1 ->
+  val_node [m_leaf "root"; d; a] 1 "degree" [] kids sub = [].
+Proof. intros. unfold val_node. change (vclass_of "degree") with VDegree. cbn. now rewrite H. Qed.
+Lemma node_logbase : forall a d kids sub, length (mkids kids) = 1 ->
+  val_node [m_leaf "log"; d; a] 1 "logbase" [] kids sub = [].
+Proof. intros. unfold val_node. change (vclass_of "logbase") with VLogbase. cbn. now rewrite H. Qed.
+
+Ltac solve_len :=
+  cbn [mkids filter is_mathml m_leaf m_el]; rewrite ?String.eqb_refl;
+  repeat match goal with H : is_mathml ?a = true |- context [is_mathml ?a] => rewrite H end;
+  cbn [length]; first [reflexivity | lia].
+
 Ltac struct_step :=
   repeat (first [ rewrite struct_el
+                | rewrite String.eqb_refl
                 | match goal with H : is_mathml ?a = true |- context [is_mathml ?a] => rewrite H end
                 | match goal with H : forall pk idx, val_struct pk idx ?a = [] |- context [val_struct _ _ ?a] => rewrite H end
-                | progress cbn [val_struct_kids mkids filter app is_mathml m_leaf m_el length] ]).
+                | progress cbn [val_struct_kids mkids filter app is_mathml m_leaf m_el length]
+                | rewrite node_apply by solve_len
+                | rewrite node_piecewise
+                | rewrite node_piece by solve_len
+                | rewrite node_otherwise by solve_len
+                | rewrite node_degree by solve_len
+                | rewrite node_logbase by solve_len ]).
 
 Lemma wf_struct : forall a, WFExpr a -> forall pk idx, val_struct pk idx a = [].
 Proof.
@@ -139,4 +169,301 @@ Proof.
   - unfold m_el. struct_step. reflexivity.
   - unfold m_el. struct_step. reflexivity.
   - unfold m_el. struct_step. reflexivity.
+Qed.
+
+(* ------------------------------------------------------------------------------------------------ the analyser on the grammar *)
+
+Lemma ana_node_unfold : forall vars parent gp n attrs kids into,
+  ana_node vars parent gp (Elem MATHML_NS n attrs kids) into =
+  ana_body vars gp n kids
+    (konts (fun k slot => ana_node vars (Elem MATHML_NS n attrs kids) (is_mathml_el "math" parent) k slot) kids)
+    (get into).
+Proof.
+  intros. cbn [ana_node]. rewrite String.eqb_refl. cbn [negb]. f_equal.
+  set (x := Elem MATHML_NS n attrs kids). clearbody x.
+  induction kids as [|k r IH]; [reflexivity|].
+  cbn [konts]. destruct (is_mathml k); now rewrite IH.
+Qed.
+
+Definition all_ops : list string := ops1 ++ ops2 ++ ops3 ++ constants.
+
+(** the AST an operator / constant leaf turns a fresh slot into *)
+Definition leaf_ast (gp : bool) (op : string) : ast :=
+  match ana_body std_vars gp op [] [] ast_new with Ok r => r | Crash _ => ast_new end.
+
+Lemma ana_leaf : forall op, In op all_ops -> forall parent gp into, get into = ast_new ->
+  ana_node std_vars parent gp (m_leaf op) into = Ok (leaf_ast gp op).
+Proof.
+  intros op H parent gp into Hi. unfold m_leaf, m_el. rewrite ana_node_unfold, Hi. cbn [konts].
+  destruct gp; in_cases H; reflexivity.
+Qed.
+
+Definition ok1 (t : ty) : bool := match gclass_of t with GUnary | GOneOrTwo | GRootLike => true | _ => false end.
+Definition ok2 (t : ty) : bool := match gclass_of t with GBinary | GOneOrTwo => true | _ => false end.
+Definition bare (a : ast) : bool :=
+  match a with Ast t "" None None None => negb (ty_beq t DIFF) | _ => false end.
+
+Lemma leaf1 : forall op gp, In op ops1 -> bare (leaf_ast gp op) = true /\ ok1 (ast_ty (leaf_ast gp op)) = true.
+Proof. intros op gp H. destruct gp; in_cases H; split; reflexivity. Qed.
+Lemma leaf2 : forall op gp, In op ops2 -> bare (leaf_ast gp op) = true /\ ok2 (ast_ty (leaf_ast gp op)) = true.
+Proof. intros op gp H. destruct gp; in_cases H; split; reflexivity. Qed.
+Lemma leaf3 : forall op gp, In op ops3 -> bare (leaf_ast gp op) = true /\ ok2 (ast_ty (leaf_ast gp op)) = true.
+Proof. intros op gp H. destruct gp; in_cases H; split; reflexivity. Qed.
+Lemma leaf_const : forall c gp, In c constants ->
+  printable true (leaf_ast gp c) = true /\ ast_ty (leaf_ast gp c) <> DIFF.
+Proof. intros c gp H. destruct gp; in_cases H; split; (reflexivity || discriminate). Qed.
+
+Lemma bare_inv : forall a, bare a = true -> exists t, a = Ast t "" None None None /\ t <> DIFF.
+Proof.
+  intros [t v x l r] H. cbn in H. destruct v; [|discriminate]. destruct x; [discriminate|].
+  destruct l; [discriminate|]. destruct r; [discriminate|].
+  exists t. split; [reflexivity|]. intro E. subst t. discriminate.
+Qed.
+
+Definition good (r : ast) : Prop := printable true r = true /\ ast_ty r <> DIFF.
+
+Lemma first_child_single : forall x, first_child [x] = Some [x].
+Proof. intro x. cbn. now destruct (is_blank_text x). Qed.
+
+Ltac use_ih :=
+  match goal with
+  | IH : forall parent gp into, get into = ast_new -> exists r, ana_node std_vars parent gp ?a into = Ok r /\ good r
+    |- context [ana_node std_vars ?p ?g ?a ?s] =>
+      let r := fresh "r" in let E := fresh "E" in let G := fresh "G" in
+      destruct (IH p g s eq_refl) as (r & E & G); rewrite E; clear E
+  end.
+
+Ltac use_leaf :=
+  match goal with
+  | |- context [ana_node std_vars ?p ?g (m_leaf ?op) ?s] =>
+      rewrite (ana_leaf op) by (first [assumption | unfold all_ops; auto using in_or_app | reflexivity])
+  end.
+
+Lemma in_all1 : forall op, In op ops1 -> In op all_ops.
+Proof. intros. unfold all_ops. apply in_or_app. now left. Qed.
+Lemma in_all2 : forall op, In op ops2 -> In op all_ops.
+Proof. intros. unfold all_ops. apply in_or_app. right. apply in_or_app. now left. Qed.
+Lemma in_all3 : forall op, In op ops3 -> In op all_ops.
+Proof. intros. unfold all_ops. apply in_or_app. right. apply in_or_app. right. apply in_or_app. now left. Qed.
+Lemma in_allc : forall op, In op constants -> In op all_ops.
+Proof. intros. unfold all_ops. apply in_or_app. right. apply in_or_app. right. apply in_or_app. now right. Qed.
+Lemma in_all_root : In "root" all_ops. Proof. apply in_all1. unfold ops1. cbn. tauto. Qed.
+Lemma in_all_log : In "log" all_ops. Proof. apply in_all1. unfold ops1. cbn. tauto. Qed.
+
+Ltac use_leaf2 :=
+  match goal with
+  | |- context [ana_node std_vars ?p ?g (m_leaf ?op) ?s] =>
+      rewrite (ana_leaf op) by
+        (first [ assumption | reflexivity | now apply in_all1 | now apply in_all2 | now apply in_all3 | now apply in_allc
+               | apply in_all_root | apply in_all_log ])
+  end.
+
+Ltac open_node :=
+  unfold m_el;
+  rewrite ana_node_unfold;
+  repeat match goal with H : get ?i = ast_new |- context [get ?i] => rewrite H end;
+  repeat (first [ rewrite String.eqb_refl
+                | match goal with H : is_mathml ?a = true |- context [is_mathml ?a] => rewrite H end
+                | progress cbn [konts is_mathml m_leaf m_el get] ]);
+  unfold ana_body;
+  cbn [String.eqb Ascii.eqb Bool.eqb];
+  cbn [ana_child nth_error bind length Nat.leb Nat.eqb Nat.sub apply_chain piecewise_chain populate ast_left ast_right ast_new].
+
+Ltac fold_leaf :=
+  repeat match goal with |- context [Elem MATHML_NS ?op [] []] => progress change (Elem MATHML_NS op [] []) with (m_leaf op) end.
+Ltac use_leaf3 := fold_leaf; use_leaf2.
+
+Ltac leaf_facts lem op g Hin :=
+  let Hb := fresh "Hb" in let Hk := fresh "Hk" in let T := fresh "T" in let ET := fresh "ET" in let TD := fresh "TD" in
+  destruct (lem op g Hin) as [Hb Hk]; destruct (bare_inv _ Hb) as (T & ET & TD); rewrite ET in *; clear Hb;
+  cbn [ast_ty] in Hk.
+
+Ltac finish_good :=
+  eexists; split; [reflexivity|]; split;
+  [ cbn [printable gclass_of];
+    repeat match goal with G : good _ |- _ => destruct G as [?P ?D] end;
+    repeat match goal with P : printable true ?r = true |- context [printable true ?r] => rewrite P end;
+    try reflexivity
+  | cbn [ast_ty]; try assumption; try discriminate ].
+
+Lemma wf_ana : forall a, WFExpr a -> forall parent gp into, get into = ast_new ->
+  exists r, ana_node std_vars parent gp a into = Ok r /\ good r.
+Proof.
+  induction 1; intros parent gp into Hi; mathml_facts.
+  - unfold m_ci, m_el. rewrite ana_node_unfold, Hi. in_cases H; (eexists; split; [reflexivity|split; [reflexivity|discriminate]]).
+  - unfold m_cn. rewrite ana_node_unfold, Hi. cbn [konts is_mathml]. unfold ana_body.
+    cbn [String.eqb Ascii.eqb Bool.eqb length Nat.eqb]. rewrite first_child_single. cbn [cur].
+    eexists; split; [reflexivity|split; [reflexivity|discriminate]].
+  - unfold m_cn_e. rewrite ana_node_unfold, Hi. cbn [konts is_mathml m_leaf m_el]. rewrite String.eqb_refl.
+    unfold ana_body. cbn [String.eqb Ascii.eqb Bool.eqb length Nat.eqb].
+    cbn [first_child]. rewrite (basic_real_not_blank m H). cbn [cur next].
+    eexists; split; [reflexivity|split; [reflexivity|discriminate]].
+  - use_leaf2.
+    eexists; split; [reflexivity|]. now apply leaf_const.
+  - unfold m_apply. unfold m_el at 1. rewrite Hi || idtac. open_node. use_leaf3.
+    leaf_facts leaf1 op (is_mathml_el "math" parent) H. cbn [bind ast_left]. use_ih. cbn [bind set_left].
+    finish_good. unfold ok1, ok2 in *. destruct (gclass_of T); try discriminate; reflexivity.
+  - unfold m_apply. unfold m_el at 1. open_node. use_leaf3.
+    leaf_facts leaf2 op (is_mathml_el "math" parent) H. cbn [bind ast_left]. use_ih. cbn [bind]. use_ih.
+    cbn [bind set_left set_right].
+    finish_good. unfold ok1, ok2 in *. destruct (gclass_of T); try discriminate; reflexivity.
+  - unfold m_apply. unfold m_el at 1. open_node. use_leaf3.
+    leaf_facts leaf3 op (is_mathml_el "math" parent) H. cbn [bind ast_left]. use_ih. cbn [bind]. use_ih.
+    cbn [bind ast_left]. use_ih. cbn [bind set_left set_right].
+    finish_good. unfold ok1, ok2 in *. destruct (gclass_of T); try discriminate; reflexivity.
+  - unfold m_apply. unfold m_el at 1. open_node. use_leaf3.
+    change (leaf_ast (is_mathml_el "math" parent) "root") with (Ast ROOT "" None None None).
+    cbn [bind ast_left]. open_node. use_ih. cbn [bind set_left]. use_ih. cbn [bind set_left set_right].
+    finish_good.
+  - unfold m_apply. unfold m_el at 1. open_node. use_leaf3.
+    change (leaf_ast (is_mathml_el "math" parent) "log") with (Ast LOG "" None None None).
+    cbn [bind ast_left]. open_node. use_ih. cbn [bind set_left]. use_ih. cbn [bind set_left set_right].
+    finish_good.
+  - open_node. open_node. use_ih. cbn [bind]. use_ih. cbn [bind set_left set_right].
+    finish_good.
+  - open_node. open_node. use_ih. cbn [bind]. use_ih. cbn [bind set_left set_right].
+    open_node. use_ih. cbn [bind set_left set_right].
+    finish_good.
+  - open_node. open_node. use_ih. cbn [bind]. use_ih. cbn [bind set_left set_right].
+    open_node. use_ih. cbn [bind set_left set_right].
+    open_node. use_ih. cbn [bind]. use_ih. cbn [bind set_left set_right].
+    finish_good.
+Qed.
+
+
+(* ------------------------------------------------------------------------------------------------ equations and documents *)
+
+(** what the three validator passes need to know of a sub-tree *)
+Definition vfacts (x : xml) : Prop :=
+  is_mathml x = true /\ val_supported x = [] /\ val_cicn std_vars std_units x = [] /\ forall pk idx, val_struct pk idx x = [].
+(** what the analyser needs to know of one side of an equation *)
+Definition afacts (x : xml) : Prop :=
+  forall parent gp, exists r, ana_node std_vars parent gp x None = Ok r /\ printable true r = true /\ side_ok (Some r) = true.
+
+Lemma wf_vfacts : forall a, WFExpr a -> vfacts a.
+Proof. intros a H. repeat split; [now apply wf_mathml|now apply wf_supported|now apply wf_cicn|now apply wf_struct]. Qed.
+
+Lemma not_diff_side_ok : forall r, ast_ty r <> DIFF -> side_ok (Some r) = true.
+Proof. intros [t v x l r] H. cbn in *. destruct t; try reflexivity. contradiction. Qed.
+
+Lemma wf_afacts : forall a, WFExpr a -> afacts a.
+Proof.
+  intros a H parent gp. destruct (wf_ana a H parent gp None eq_refl) as (r & E & P & D).
+  exists r. repeat split; [exact E|exact P|now apply not_diff_side_ok].
+Qed.
+
+Definition ode_lhs (x t : string) : xml := m_apply "diff" [m_el "bvar" [m_ci t]; m_ci x].
+
+Lemma ode_vfacts : forall x t, In x std_vars -> In t std_vars -> vfacts (ode_lhs x t).
+Proof. intros x t Hx Ht. in_cases Hx; in_cases Ht; repeat split. Qed.
+
+Lemma ode_afacts : forall x t, In x std_vars -> In t std_vars -> afacts (ode_lhs x t).
+Proof.
+  intros x t Hx Ht parent gp.
+  in_cases Hx; in_cases Ht; (eexists; split; [reflexivity|split; reflexivity]).
+Qed.
+
+Lemma eqn_vfacts : forall lhs rhs, vfacts lhs -> vfacts rhs -> vfacts (m_eqn lhs rhs).
+Proof.
+  intros lhs rhs (Ml & Sl & Cl & Tl) (Mr & Sr & Cr & Tr). unfold m_eqn, m_apply.
+  repeat split.
+  - unfold m_el. rewrite sup_el. cbn [flat_map app]. now rewrite Sl, Sr.
+  - unfold m_el. rewrite cicn_el. cbn [flat_map app String.eqb Ascii.eqb Bool.eqb]. now rewrite Cl, Cr.
+  - intros pk idx. unfold m_el at 1. struct_step.
+    change (Elem MATHML_NS "eq" [] []) with (m_leaf "eq"). rewrite struct_leaf2 by (unfold ops2; cbn; tauto). reflexivity.
+Qed.
+
+Lemma eqn_ana : forall root lhs rhs,
+  is_mathml_el "math" root = true -> is_mathml lhs = true -> is_mathml rhs = true -> afacts lhs -> afacts rhs ->
+  exists a, ana_equation std_vars root (m_eqn lhs rhs) = Ok a.
+Proof.
+  intros root lhs rhs Hroot Ml Mr Al Ar. unfold ana_equation, m_eqn, m_apply. unfold m_el at 1.
+  rewrite ana_node_unfold.
+  repeat (first [ rewrite String.eqb_refl | rewrite Ml | rewrite Mr | rewrite Hroot
+                | progress cbn [konts is_mathml m_leaf m_el get] ]).
+  unfold ana_body. cbn [String.eqb Ascii.eqb Bool.eqb].
+  cbn [ana_child nth_error bind length Nat.leb Nat.eqb Nat.sub apply_chain].
+  fold_leaf. rewrite (ana_leaf "eq") by (first [reflexivity | apply in_all2; unfold ops2; cbn; tauto]).
+  change (leaf_ast true "eq") with ast_new. cbn [bind ast_left ast_new].
+  destruct (Al (Elem MATHML_NS "apply" [] [m_leaf "eq"; lhs; rhs]) true) as (rl & El & Pl & Sl). rewrite El.
+  destruct (Ar (Elem MATHML_NS "apply" [] [m_leaf "eq"; lhs; rhs]) true) as (rr & Er & Pr & Sr). rewrite Er.
+  unfold ast_new. cbn [bind set_left set_right ast_ty printable gclass_of negb ast_left ast_right]. rewrite Pl, Pr. cbn [andb negb].
+  rewrite Sl, Sr. cbn [andb]. eexists. reflexivity.
+Qed.
+
+Lemma wfeqn_facts : forall e, WFEqn e ->
+  vfacts e /\ forall root, is_mathml_el "math" root = true -> exists a, ana_equation std_vars root e = Ok a.
+Proof.
+  destruct 1 as [lhs rhs Hl Hr | x t rhs Hx Ht Hr].
+  - split; [apply eqn_vfacts; now apply wf_vfacts|].
+    intros root Hroot. apply eqn_ana; try assumption; try (now apply wf_mathml); now apply wf_afacts.
+  - split; [apply eqn_vfacts; [now apply ode_vfacts|now apply wf_vfacts]|].
+    intros root Hroot. apply eqn_ana; try assumption.
+    + now destruct (ode_vfacts x t Hx Ht).
+    + now apply wf_mathml.
+    + now apply ode_afacts.
+    + now apply wf_afacts.
+Qed.
+
+Lemma mathml_not_blank : forall x, is_mathml x = true -> is_blank_text x = false.
+Proof. intros [ns n a k|s|s] H; [reflexivity|discriminate|discriminate]. Qed.
+
+Lemma visible_mathml : forall ks, Forall (fun k => is_mathml k = true) ks -> visible ks = ks.
+Proof.
+  intros ks H. unfold visible. destruct H as [|k r Hk Hr]; [reflexivity|].
+  cbn [first_child]. now rewrite (mathml_not_blank k Hk).
+Qed.
+
+Lemma all_mathml : forall eqs, Forall WFEqn eqs -> Forall (fun k => is_mathml k = true) eqs.
+Proof. induction 1 as [|e r He _ IH]; constructor; [now destruct (wfeqn_facts e He) as ((M & _) & _)|exact IH]. Qed.
+Lemma all_supported : forall eqs, Forall WFEqn eqs -> flat_map val_supported eqs = [].
+Proof.
+  induction 1 as [|e r He _ IH]; [reflexivity|]. cbn [flat_map].
+  destruct (wfeqn_facts e He) as ((_ & S & _) & _). now rewrite S, IH.
+Qed.
+Lemma all_cicn : forall eqs, Forall WFEqn eqs -> flat_map (val_cicn std_vars std_units) eqs = [].
+Proof.
+  induction 1 as [|e r He _ IH]; [reflexivity|]. cbn [flat_map].
+  destruct (wfeqn_facts e He) as ((_ & _ & C & _) & _). now rewrite C, IH.
+Qed.
+Lemma all_struct : forall eqs, Forall WFEqn eqs -> forall mk i, val_struct_kids mk eqs i = [].
+Proof.
+  induction 1 as [|e r He _ IH]; intros mk i; [reflexivity|]. cbn [val_struct_kids].
+  destruct (wfeqn_facts e He) as ((M & _ & _ & T) & _). now rewrite M, T, IH.
+Qed.
+Lemma all_ana : forall eqs, Forall WFEqn eqs -> forall root, is_mathml_el "math" root = true ->
+  exists l, ana_math_kids std_vars root eqs = Ok l.
+Proof.
+  induction 1 as [|e r He _ IH]; intros root Hroot; [now exists []|].
+  destruct (wfeqn_facts e He) as ((M & _) & A). destruct (A root Hroot) as (a & Ea). destruct (IH root Hroot) as (l & El).
+  cbn [ana_math_kids]. rewrite M, Ea, El. cbn [bind]. now eexists.
+Qed.
+
+(** The contract on the generators' grammar: the validator raises nothing and the analyser reads the document. *)
+Theorem val_implies_ana_partial : forall x, WellFormedMath x -> val_math x = [] /\ ana x <> None.
+Proof.
+  intros x (eqs & -> & Hall). split.
+  - unfold val_math, val_math_env. change (is_mathml_el "math" (m_math eqs)) with true. unfold m_math, m_el.
+    cbn [negb kids_of].
+    change ((fix go (ks : list xml) : list rule := match ks with [] => [] | k :: r => val_supported k ++ go r end) eqs)
+      with (flat_map val_supported eqs).
+    rewrite (all_supported eqs Hall), cicn_el, (all_cicn eqs Hall), (all_struct eqs Hall). reflexivity.
+  - unfold ana, ana_node_opt, ana_math_env. unfold m_math, m_el. cbn [kids_of].
+    rewrite (visible_mathml eqs (all_mathml eqs Hall)).
+    destruct (all_ana eqs Hall (Elem MATHML_NS "math" [] eqs) eq_refl) as (l & El). rewrite El. discriminate.
+Qed.
+
+(** non-vacuity: a document of the grammar that uses most constructors *)
+Example wf_example :
+  WellFormedMath (m_math
+    [m_eqn (ode_lhs "x" "t") (m_apply "plus" [m_apply "times" [m_ci "y"; m_cn "2.5"; m_cn_e "1" "-3"];
+                                               m_apply "root" [m_el "degree" [m_cn "3"]; m_ci "z"]]);
+     m_eqn (m_ci "y") (m_el "piecewise" [m_el "piece" [m_apply "min" [m_ci "z"; m_leaf "pi"]; m_apply "lt" [m_ci "t"; m_cn "1"]];
+                                          m_el "otherwise" [m_apply "sin" [m_ci "t"]]])]).
+Proof.
+  eexists. split; [reflexivity|].
+  repeat first [ apply Forall_cons | apply Forall_nil
+               | apply WF_ode | apply WF_alg | apply WF_root | apply WF_log | apply WF_pw1o | apply WF_pw2o | apply WF_pw1
+               | apply WF_op3 | apply WF_op2 | apply WF_op1 | apply WF_cne | apply WF_cn | apply WF_ci | apply WF_const
+               | reflexivity | (cbn; tauto) ].
 Qed.
